@@ -260,8 +260,11 @@ impl State {
 
     #[tracing::instrument]
     fn unlink_disallowed_observers(&self) {
-        let mut disallowed = self.disallowed_observers.borrow_mut();
-        for obs_weak in disallowed.drain(..) {
+        // Dropping an InternalObserver drops its update handlers and whatever they captured, which
+        // is user code (e.g. a guard that unsubscribes a token through a WeakState when dropped):
+        // neither table may be borrowed at that point.
+        let disallowed = std::mem::take(&mut *self.disallowed_observers.borrow_mut());
+        for obs_weak in disallowed {
             let Some(obs) = obs_weak.upgrade() else {
                 continue;
             };
@@ -272,8 +275,8 @@ impl State {
             {
                 obs.remove_from_observed_node();
                 // remove from all_observers (this finally drops the InternalObserver)
-                let mut ao = self.all_observers.borrow_mut();
-                ao.remove(&obs.id());
+                let removed = self.all_observers.borrow_mut().remove(&obs.id());
+                drop(removed);
                 drop(obs);
             }
             observing.check_if_unnecessary(self);
